@@ -524,8 +524,7 @@ def gen_cases(ctx):
     n = 260 if ctx.quick else 3000
     out = [gen_one(rng) for _ in range(n)]
     out += [gen_outside(rng) for _ in range(n // 8)]
-    if not ctx.quick:
-        out += [gen_e2e(rng, i) for i in range(24)]
+    out += [gen_e2e(rng, i) for i in range(6 if ctx.quick else 24)]
     return out
 
 
@@ -564,6 +563,12 @@ def eval_e2e(desc, ctx):
     if desc["cont"]:
         conf["release"]["continuous"] = True
         conf["release"]["release_frequency"] = desc["freq"]
+    else:
+        # a DISCRETE release whose section still carries a release frequency (no `continuous` key, or, every fourth
+        # case, an explicit false): the frequency is dormant, every row is released once at its own time
+        conf["release"]["release_frequency"] = [dt, 2 * dt, [dt // 60, "m"]][desc["idx"] % 3]
+        if desc["idx"] % 4 == 1:
+            conf["release"]["continuous"] = False
     model = run_ladim.run_conf(conf)
     data = run_ladim.read_sparse(out)
     seen, steps = set(), []
